@@ -28,6 +28,7 @@ type PropertyMeta struct {
 	Assumptions []string `json:"assumptions"`
 	Bounded     []string `json:"bounded"` // names of bounded stand-ins to run
 	Required    []string `json:"required_labels"`
+	DeadReturns []string `json:"dead_returns"` // cover queries expected to be unsat (dead code by contract)
 	ExtraFuncs  []string `json:"extra_functions"`
 }
 
@@ -123,6 +124,9 @@ type CheckResult struct {
 	ToolError   string
 	Uncontracted []string
 	CoverSat    int
+	CoverRelaxed int
+	CoverUnknown int
+	CoverUnsat  []string
 }
 
 func loadKnown(root string) []KnownFinding {
@@ -155,14 +159,17 @@ func runCheck(repo, root, prop, tier string, seed int) *CheckResult {
 	meta := loadMeta(root, prop)
 	known := loadKnown(root)
 	timeout := 10
+	coverTimeout := 1
 	if tier == "thorough" {
 		timeout = 60
+		coverTimeout = 10
 	}
 	work := tmpWorkdir()
 	defer os.RemoveAll(work)
 
 	// 1. encode every function under contract; collect obligations of this property
 	var obls []*Obligation
+	var covers []*Obligation
 	funcSet := map[string]bool{}
 	trusted := map[string]bool{}
 	uncon := map[string]bool{}
@@ -215,6 +222,9 @@ func runCheck(repo, root, prop, tier string, seed int) *CheckResult {
 			uncon[u] = true
 		}
 		hasP := funcHasProp(fc, prop)
+		if hasP || isSafetyProp {
+			covers = append(covers, e.covers...)
+		}
 		cnt := 0
 		for _, o := range e.obls {
 			take := hasProp(o.Props, prop)
@@ -303,7 +313,38 @@ func runCheck(repo, root, prop, tier string, seed int) *CheckResult {
 			o.Result = &r
 		}(o)
 	}
+	coverRes := make([]string, len(covers))
+	for i, o := range covers {
+		wg.Add(1)
+		go func(i int, o *Obligation) {
+			defer wg.Done()
+			coverRes[i] = runCover(o, work, seed, coverTimeout)
+		}(i, o)
+	}
 	wg.Wait()
+	for i, o := range covers {
+		switch coverRes[i] {
+		case "sat":
+			res.CoverSat++
+		case "sat-relaxed":
+			res.CoverRelaxed++
+		case "unsat":
+			expected := false
+			for _, d := range meta.DeadReturns {
+				if d == o.Name {
+					expected = true
+				}
+			}
+			if expected {
+				res.CoverUnsat = append(res.CoverUnsat, o.Name+" (expected: dead by contract)")
+			} else {
+				res.CoverUnsat = append(res.CoverUnsat, o.Name)
+				res.Lines = append(res.Lines, "WARNING unreachable-return "+o.Name+" "+o.Pos+": dead code, or contradictory premises on this path (obligations there hold vacuously)")
+			}
+		default:
+			res.CoverUnknown++
+		}
+	}
 
 	// 3. bounded stand-ins
 	for _, b := range meta.Bounded {
@@ -416,6 +457,8 @@ func writeEvidence(root string, r *CheckResult) {
 		"solver_time_ms": r.SolverMs,
 		"bounded":       r.Bounded,
 		"known_findings_reported": r.Known,
+		"vacuity_covers": map[string]interface{}{"reachable_sat": r.CoverSat, "reachable_sat_quantifier_free_relaxation": r.CoverRelaxed, "undecided": r.CoverUnknown, "unreachable": r.CoverUnsat,
+			"rule": "one query per return statement of every function under contract: premises + path condition must be satisfiable; guards against contradictory contracts/axioms"},
 		"uncontracted_callees_havocked": r.Uncontracted,
 		"explanation":   "deductive: every obligation generated from the current source must be unsat-discharged; bounded stand-ins (if any) are listed under 'bounded' and are not counted in obligations/discharged",
 	}
